@@ -274,7 +274,7 @@ reg("C14",
     harness=STATES + ["c14.c"],
     stages=[dict(variant="asan", cases={"quick": 640, "thorough": 16000}, timeout={"quick": 900, "thorough": 3400})],
     floors={"quick": {"owners": 500, "wellformed_requests": 5000, "get_replies_verified": 800, "get_rejections_verified": 400, "get_all_replies_verified": 500, "libxcmctl_sessions": 500, "libxcmctl_get_all_ok": 300,
-                      "malformed_requests": 1200, "session_storms": 500, "data_path_checks": 1000, "control_dirs_empty_after_close": 500, "distinct_nontrivial": 20},
+                      "malformed_requests": 1200, "session_storms": 500, "slot_reuse_sessions": 250, "data_path_checks": 1000, "control_dirs_empty_after_close": 500, "distinct_nontrivial": 20},
             "thorough": {"owners": 14000, "wellformed_requests": 300000, "malformed_requests": 80000, "distinct_nontrivial": 20}},
     rule="one evaluation = one owner (three sockets of one transport and flavour) on which 14 (thorough 40) rounds of control sessions are run; distinct = distinct (transport, flavour, SAN count)",
     assumptions=["volatile attributes (tcp.rtt, tcp.segs_*, counters) are compared by type and length only"])
